@@ -306,6 +306,14 @@ class SymNum:
     def __float__(self):
         raise EngineError("float() of a symbolic number outside a rebound namespace")
 
+    def __index__(self):
+        # range(n) / seq[n] / seq[a:b] with a symbolic n: a concrete value is fine, anything else is a
+        # construct the engine does not model (never the code's own TypeError)
+        v = z3.simplify(self.t)
+        if z3.is_rational_value(v) and v.denominator_as_long() == 1:
+            return v.numerator_as_long()
+        raise UncutLoop("a symbolic number is used as an index, a slice bound or a range() bound")
+
     def __deepcopy__(self, memo):
         return self
 
@@ -1203,6 +1211,7 @@ class Ctx:
         self.fold_depth = 0
         self.fold_forked = None
         self.split_roots = {}
+        self.fold_member_names = set()
 
     def _full(self):
         if self.solver is None:
@@ -1241,7 +1250,7 @@ class Ctx:
         k = len(self.taken)
         if k < len(self.schedule):
             d = self.schedule[k]
-            if getattr(self, "fold_depth", 0) > 0 and self.feasible(z3.Not(e) if d else e):
+            if getattr(self, "fold_depth", 0) > 0 and self._member_dependent(e) and self.feasible(z3.Not(e) if d else e):
                 # a replayed decision inside the body run for the arbitrary member of a team: it was a
                 # two-sided fork when it was first met (see below)
                 self.fold_forked = str(e)[:100]
@@ -1249,7 +1258,7 @@ class Ctx:
             t = self.feasible(e)
             f = self.feasible(z3.Not(e))
             if t and f:
-                if getattr(self, "fold_depth", 0) > 0:
+                if getattr(self, "fold_depth", 0) > 0 and self._member_dependent(e):
                     # inside the body run for the *arbitrary* member of a team of symbolic size (teams.py):
                     # other members may take the other side.  Recorded; the fold decides whether the loop is
                     # still inside the rule (member-wise effects only, no sum over the members afterwards)
@@ -1271,6 +1280,24 @@ class Ctx:
         self._add(c)
         return d
 
+    def _member_dependent(self, e):
+        """does a condition met inside a loop over a team of symbolic size mention the current member
+        (its Skolem symbols, its index, a value carried through the loop)?  A loop-invariant condition
+        (len(team) <= 4, a model parameter) is the same for every member and does not split the team."""
+        names = getattr(self, "fold_member_names", None)
+        if not names:
+            return True
+        seen, stack = set(), [e]
+        while stack:
+            x = stack.pop()
+            if x.get_id() in seen:
+                continue
+            seen.add(x.get_id())
+            if z3.is_const(x) and x.decl().kind() == z3.Z3_OP_UNINTERPRETED and x.decl().name() in names:
+                return True
+            stack.extend(x.children())
+        return False
+
     # ---- merged sub-exploration
     def call_merged(self, fn, *a, **k):
         """merged(...) of call(fn, *a, **k), for an fn that does not mutate its arguments
@@ -1288,6 +1315,7 @@ class Ctx:
         all paths agree in kind, else ("split", [(condition, outcome), ...])."""
         base_pc, base_taken, base_sched, base_work = list(self.pc), list(self.taken), self.schedule, self.worklist
         base_all, base_asm = len(self._all), len(self.assumptions)
+        base_split = dict(getattr(self, "split_roots", {}))
         had_full = self.solver is not None
         work = [[]]
         results, cond_asm, npath = [], [], 0
@@ -1304,6 +1332,9 @@ class Ctx:
                 sched = work.pop()
                 self.pc, self.taken, self.schedule, self.worklist = list(base_pc), [], list(sched), work
                 self.fold_depth = 0
+                self.fold_forked = None
+                self.split_roots = dict(base_split)
+                self.fold_member_names = set()
                 self.light.push()
                 if had_full:
                     self.solver.push()
